@@ -53,7 +53,16 @@ def gen_one(rng, i, tier):
     if kind == "touching" and sc == "neg":
         pos, neg = neg, pos
     ep, en = gen.easy_counts(rng, stream, len(pos), len(neg))
-    return {"stream": stream, "kind": kind, "pos": pos, "neg": neg, "ep": ep, "en": en, "sc": sc, "ec": ec}
+    narrow = None
+    if kind == "tiefree" and rng.random() < 0.2:
+        # the same data squeezed into a narrow band (a saturated classifier): the EER and the rates at its threshold are
+        # invariant under increasing affine maps, so no absolute tolerance on score differences may enter
+        a, b = 2.0 ** -rng.choice([10, 13, 17]), rng.choice([1.0, 0.5, -3.0])
+        p2, n2 = [a * x + b for x in pos], [a * x + b for x in neg]
+        if len(set(p2 + n2)) == len(p2) + len(n2):
+            pos, neg, narrow = p2, n2, [a, b]
+    return {"stream": stream, "kind": kind, "pos": pos, "neg": neg, "ep": ep, "en": en, "sc": sc, "ec": ec,
+            "narrow": narrow, "prior": rng.random() < 0.3}
 
 
 def nontrivial(inp):
@@ -68,6 +77,11 @@ def build(inp) -> Case:
     pos, neg, ep, en, sc, ec = inp["pos"], inp["neg"], inp["ep"], inp["en"], inp["sc"], inp["ec"]
     s = Scores(pos, neg, nb_easy_pos=ep, nb_easy_neg=en, score_class=sc, equal_class=ec)
     pre = []
+    if inp.get("prior"):
+        # earlier queries on the SAME object (eer() is a query: its result must not depend on the call history)
+        for name, args in (("threshold_at_topr", (0.5,)), ("threshold_at_tonr", (0.25,)), ("threshold_at_fpr", (0.125,)),
+                           ("threshold_at_fnr", (0.75,)), ("auc", ()), ("cm", (0.0,))):
+            common.call(getattr(s, name), *args)
     r = common.call(s.eer)
     if r[0] == "exc":
         pre.append(Issue("PROPFAIL", "raises", f"eer raised {r[1]}: {r[2]}", f"eer/raises/{r[1]}"))
@@ -83,6 +97,10 @@ def build(inp) -> Case:
               eps=q(eps), icm=il(icm))
     scale = max([1.0] + [abs(x) for x in pos + neg])
     tags = [inp["stream"], inp["kind"], f"cfg={sc},{ec}"]
+    if inp.get("narrow"):
+        tags.append("narrow-band")
+    if inp.get("prior"):
+        tags.append("prior-calls")
     if ep or en:
         tags.append("easy")
     if e == 0.0:
